@@ -235,6 +235,43 @@ class FaultyFile:
                 raise make_oserror(f['kind'], self._label + '.close')
         return self._fh.close()
 
+    # explicit delegations: runtime-checkable Protocols (pyshp) look methods up statically
+    def read(self, *a):
+        return self._fh.read(*a)
+
+    def seek(self, *a):
+        return self._fh.seek(*a)
+
+    def tell(self):
+        return self._fh.tell()
+
+    def flush(self):
+        return self._fh.flush()
+
+    def truncate(self, *a):
+        return self._fh.truncate(*a)
+
+    def writable(self):
+        return self._fh.writable()
+
+    def readable(self):
+        return self._fh.readable()
+
+    def seekable(self):
+        return self._fh.seekable()
+
+    @property
+    def closed(self):
+        return self._fh.closed
+
+    @property
+    def mode(self):
+        return self._fh.mode
+
+    @property
+    def name(self):
+        return self._fh.name
+
     def __enter__(self):
         return self
 
